@@ -11,7 +11,8 @@ from mc import sigscen as S
 from refpgp import msg as rmsg, wire, sig as rsig, keys as rkeys, armor as rarmor
 
 T_FILE = 1300000000
-SIGNERS = ['ed25519a', 'rsa2048a', 'ecdsa_p256a']
+# (the last signer is an RSA key whose packets carry the deprecated sign-only algorithm id 3: signature and one-pass packet both say 3)
+SIGNERS = ['ed25519a', 'rsa2048a', 'ecdsa_p256a', 'rsa1024a#3']
 COMP_ID = {'Uncompressed': 0, 'ZIP': 1, 'ZLIB': 2, 'BZ2': 3}
 
 
@@ -58,6 +59,8 @@ class Prop(object):
                     u.append(('signed', {'order': list(order), 'times': times}))
                     if n >= 2:
                         u.append(('signed', {'order': list(order), 'times': times, 'export_between': True}))
+        for order in ([3], [3, 0], [0, 3], [1, 3, 0]):
+            u.append(('signed', {'order': order, 'times': 'increasing'}))
         u.append(('encrypted', {}))
         for comp in (0, 1, 2, 3):
             u.append(('foreign', {'comp': comp}))
@@ -225,7 +228,7 @@ class Prop(object):
         r = Res()
         order = case['order']
         n = len(order)
-        hashes = [HashAlgorithm.SHA256, HashAlgorithm.SHA512, HashAlgorithm.SHA1]
+        hashes = [HashAlgorithm.SHA256, HashAlgorithm.SHA512, HashAlgorithm.SHA1, HashAlgorithm.SHA384]
         for comp in COMP_ID:
             for cname, content in (('text', 'signed text\nbody\n'), ('binary', bytes(range(200)))):
                 key = '%s/%s' % (comp, cname)
